@@ -4,6 +4,8 @@ Real `Scenario.run('greedy' | 'balanced')` on generated scenarios; the strategy'
 wrapped at run time: the complete world state before every step is rendered for the Lean model
 (`rulestep`, Float battery model), the real step runs, and commands / connector loads / station
 power / vehicle and battery SoCs after the step are compared bit for bit (by value).
+Third party: the Lean SPECIFICATION of the documented rule (`specstep`, Model/RuleSpec.lean; proved equal to the model by
+C10_ruleStep_refines_spec) is evaluated on the same world line and compared with the real step in the same way.
 Oracle: an independent executable specification of the documented rule (written against the
 documentation, using copies of the real Battery objects) is run on a deep copy of the same world
 state and must give the same commands and SoCs.
@@ -22,14 +24,16 @@ PID = "C10"
 CHUNK = 2
 RULE = ("scenarios from the grammar in harness/scen.py (fixed load, generation surplus, prices around the threshold, "
         "station/vehicle minimum power, stationary batteries incl. unlimited, V2G, CONCURRENCY; plus a directed family "
-        "with battery support at a connector whose headroom is used up or negative), strategies greedy and "
+        "with battery support at a connector whose headroom is used up or negative, and one with the minimum-power cut-off "
+        "exactly on its boundary), strategies greedy and "
         "balanced; every strategy step of every run is one model evaluation; non-trivial = a step in which at least one "
         "station or battery carries power; distinct = distinct (seed, index, strategy)")
-ASSUMPTIONS = ["model vs implementation: floats compared by value (+0.0 == -0.0), no tolerance; reference specification vs implementation: 1e-9 relative (it is a restatement, not a transliteration)",
+ASSUMPTIONS = ["model vs implementation and Lean specification (`specstep`, Model/RuleSpec.lean) vs implementation: floats compared by value (+0.0 == -0.0), no tolerance — the Lean specification performs the same float operations in the same order (x + (-y) for x - y in the V2G booking, which is the same IEEE operation); Python reference specification vs implementation: 1e-9 relative (it is a restatement, not a transliteration)",
                "the reference specification uses copies of the real Battery objects (the battery is C01/C02's subject)"]
-UNPROVED = ["equality of the transliterated step with a separately written Lean spec is not proved; the documented rule "
-            "is proved clause by clause on the transliterated step (C10_*), and the transliteration is tied to the code "
-            "by this bit-level correspondence"]
+UNPROVED = ["model = Lean specification is PROVED (C10_ruleStep_refines_spec: ruleStep = RuleSpec.specStep on every world with "
+            "unique ids and priced connectors, all exceptions included) over ordered fields; on IEEE doubles the same "
+            "equality is checked by this stream (`specstep` lines, by value, no tolerance). What remains correspondence "
+            "only: the tie of either Lean function to the Python code, and the battery (BatOps) behind both"]
 EPOCH = datetime.datetime(1970, 1, 1, tzinfo=datetime.timezone.utc)
 
 
@@ -92,6 +96,13 @@ def render_result(strat, cmds):
             + " | " + " ".join(f(cs.current_power) for cs in ws.charging_stations.values())
             + " | " + " ".join(f(v.battery.soc) for v in ws.vehicles.values())
             + " | " + " ".join(f(b.soc) for b in ws.batteries.values()))
+
+
+def spec_line(line):
+    """the same world line for the driver command `specstep` (Lean specification `RuleSpec.specStep`, proved equal to
+    `ruleStep` on well-formed worlds by C10_ruleStep_refines_spec; here compared with the real step like the model)"""
+    assert line.startswith("rulestep ")
+    return "specstep " + line[len("rulestep "):]
 
 
 # ---- independent reference specification of the documented rule -------------------------------
@@ -190,6 +201,11 @@ def gen_cases(tier, seed):
     for i in range(60 if tier == "quick" else 1000):
         for st in ("greedy", "balanced"):
             yield {"seed": seed, "i": i, "strategy": st, "pid": PID, "family": "support"}
+    # directed: the minimum-power cut-off exactly on its boundary (station total == station / vehicle minimum power:
+    # `<` charges, `<=` would not) — station minimum = station maximum, or vehicle minimum = station maximum
+    for i in range(30 if tier == "quick" else 400):
+        for st in ("greedy", "balanced"):
+            yield {"seed": seed, "i": i, "strategy": st, "pid": PID, "family": "cutoff"}
 
 
 def eval_case(case):
@@ -217,6 +233,18 @@ def eval_case(case):
             lvl = rng.choice([0.5, 0.9, 1.0, 1.3])
             for fl in ev["fixed_load"].values():
                 fl["values"] = [round(rating * lvl * rng.uniform(0.8, 1.0), 3) for _ in fl["values"]]
+        elif case.get("family") == "cutoff":
+            full = scen.gen_scenario(rng, strategy=case["strategy"], n_gc=1, feasible=True, max_steps=20,
+                                     features={"window": False, "window_signal": False, "limit_signal": False})
+            comp = full["scenario"]["components"]
+            for gc in comp["grid_connectors"].values():
+                gc["max_power"] = max(gc.get("max_power") or 0, 200)      # the station, not the connector, binds
+            for cs in comp["charging_stations"].values():
+                if rng.random() < 0.6:
+                    cs["min_power"] = cs["max_power"]
+            for vt in comp["vehicle_types"].values():
+                if rng.random() < 0.4:
+                    vt["min_charging_power"] = min(cs["max_power"] for cs in comp["charging_stations"].values())
         else:
             full = scen.gen_scenario(rng, strategy=case["strategy"], feasible=True, max_steps=36,
                                      features={"window": False, "window_signal": False})
@@ -240,12 +268,16 @@ def eval_case(case):
         except Exception as e:
             lines.append(line)
             impl.append("!" + type(e).__name__)
+            lines.append(spec_line(line))          # third party: the Lean specification (Model/RuleSpec.lean)
+            impl.append("!" + type(e).__name__)
             if ref_err is None:
                 viol.append(("spec", "C10:step_raises_where_spec_does_not:%s" % full["strategy"],
                              "%s at %s" % (type(e).__name__, self.current_time)))
             raise
         lines.append(line)
         out = render_result(self, res["commands"])
+        impl.append(out)
+        lines.append(spec_line(line))              # third party: the Lean specification (Model/RuleSpec.lean)
         impl.append(out)
         if ref_err is not None:
             viol.append(("spec", "C10:spec_raises_where_step_does_not:%s" % full["strategy"], ref_err))
@@ -264,7 +296,7 @@ def eval_case(case):
     finally:
         cls.step = orig
     return {"lines": lines, "impl": impl, "violations": viol, "nontrivial": active[0] > 0,
-            "stats": [full["strategy"]], "replay_case": full, "num": {"steps_compared": len(lines)}}
+            "stats": [full["strategy"]], "replay_case": full, "num": {"steps_compared": len(lines) // 2, "spec_lines_compared": len(lines) // 2}}
 
 
 def compare(case, impl, model, tol=0.0):
